@@ -1,4 +1,5 @@
 SPECIFICATION Spec
 CONSTANT FlushBeforeReturn = TRUE
-INVARIANTS MeetsDemand NothingOnFailure ExactOnSuccess UnwritableIsErr OkMeansDelivered Torn EmitPlans
+CONSTANT FormatErrorSurfaces = FALSE
+INVARIANTS MeetsDemand NothingOnFailure ExactOnSuccess UnwritableIsErr OkMeansDelivered ErrMeansNothing Torn EmitPlans
 CHECK_DEADLOCK FALSE
